@@ -14,7 +14,8 @@ RULE = ("(1) classification: request/response shapes built around the AIP-4233 r
         "with attributes read through the pager object at every yield and after the loop; plus multi-step sequences on a caller-owned request "
         "object: mutate it after the pager was returned, drain and list again with the same object) against loopback servers answering from scripted page histories (1..5 pages up to the "
         "first empty token, page sizes 0..3, empty intermediate pages, unreachable pages after the empty token, initial "
-        "page_token set or not, timeout/metadata/retry options); one case = one (library, method, client kind, history, mode); "
+        "page_token set or not; call options: timeout a value / not passed (configured default) / explicit None, metadata, retry an explicit "
+        "Retry / not passed (configured default retry on UNAVAILABLE) / explicit None, with a failing follow-up fetch); one case = one (library, method, client kind, history, mode); "
         "non-trivial = the history has at least two pages or at least one item. Distinct = distinct canonical JSON.")
 TRUSTED = [
     "Model/Paging.v: hand-written model of Method.paged_result_field/_validate_paged_field_size_type, of the fixed skeleton "
@@ -616,6 +617,15 @@ def t1_checks(ctx, i, info, files):
 # ---- histories and driving ----
 TOKENS = ["t1", "next", "CAE=", "a/b c", "0", "tok-2", "p3?x=1&y", "é", "%41", "  "]
 TIMEOUTS = [20.0, 40.0, 80.0]
+DEFAULT_TIMEOUT = 60.0            # methodConfig default of every generated library (see retry_config)
+
+
+def retry_config(info):
+    """Service config given to the generator: every method of the service gets a default retry policy on UNAVAILABLE and a default
+    timeout, so that DEFAULT and the caller's explicit retry=None / timeout=None are observably different."""
+    return {"methodConfig": [{"name": [{"service": f"{info['package']}.{info['service']}"}], "timeout": f"{int(DEFAULT_TIMEOUT)}s",
+                             "retryPolicy": {"maxAttempts": 4, "initialBackoff": "0.01s", "maxBackoff": "0.02s", "backoffMultiplier": 1.0,
+                                             "retryableStatusCodes": ["UNAVAILABLE"]}}]}
 
 
 def item_value(r, f, D, k):
@@ -743,7 +753,7 @@ def gen_history(r):
 def nearest_timeout(x):
     if x is None or x > 1e9:      # no deadline
         return None
-    best = min(TIMEOUTS, key=lambda t: abs(t - x))
+    best = min(TIMEOUTS + [DEFAULT_TIMEOUT], key=lambda t: abs(t - x))
     return best if abs(best - x) < 9.0 else round(x, 1)
 
 
@@ -810,11 +820,14 @@ def build_drive_calls(r, D, info, m, kinds):
     pages, extra = gen_history(r)
     serials = list(range(1, len(pages) + len(extra) + 1))
     msgs = [fill_page(r, D, m, sz, tok, s) for (sz, tok), s in zip(pages + extra, serials)]
-    timeout = r.choice(TIMEOUTS + [None])
+    tmode = r.choice(["value", "value", "unset", "none", "none"])      # a value / not passed (method default) / explicit None (no deadline)
+    timeout = r.choice(TIMEOUTS) if tmode == "value" else (DEFAULT_TIMEOUT if tmode == "unset" else None)
     md = [["x-test-opt", r.choice(["v1", "abc"])]] if r.random() < 0.7 else []
     ck = {}
-    if timeout is not None:
+    if tmode != "unset":
         ck["timeout"] = timeout
+    if r.random() < 0.3:
+        ck["retry"] = "none"
     if md:
         ck["metadata"] = md
     hist = {"pages": [[items_of_dynamic(x, item), x.next_page_token, attrs_of_dynamic(x, attr_names[1:])] for x in msgs],
@@ -839,7 +852,7 @@ def build_drive_calls(r, D, info, m, kinds):
             else:
                 spec["grpc_script"] = {m["path"]: [{"messages": [dyn.Dyn.b64(x)]} for x in msgs]}
             out.append({"spec": spec, "hist": hist, "kind": kind, "mode": mode, "item": item, "attr_names": attr_names,
-                        "sent_token": rq.page_token, "sent_filter": rq.filter if "filter" in has else "", "md": md, "timeout": timeout, "m": m})
+                        "sent_token": rq.page_token, "sent_filter": rq.filter if "filter" in has else "", "md": md, "timeout": timeout, "timeout_mode": tmode, "m": m})
     return out
 
 
@@ -869,7 +882,8 @@ def eval_drive(ctx, D, info, lib_i, req_b64, call, res, checks, pending):
              feature=[f"drive-{kind}", f"mode-{mode}", f"pages={len(full)}", "break-holding-page>=2" if mode == "pages-break" and brk >= 1 else "no-late-break", f"item-{m['item_kind']}", f"size-{m['size'][0]}:{short(m['size'][1])}",
                       "empty-intermediate-page" if any(not p[0] for p in visited[:-1]) else "no-empty-intermediate",
                       "unreachable-extra-pages" if len(hist["pages"]) > hist["visited"] else "no-extra-pages",
-                      "initial-token" if call["sent_token"] else "no-initial-token"])
+                      "initial-token" if call["sent_token"] else "no-initial-token", f"timeout-{call.get('timeout_mode', 'value')}",
+                      "retry-none" if call["spec"]["call_kwargs"].get("retry") == "none" else "retry-unset"])
     if not res.get("ok"):
         pending.append((None, f"{label}: iterating the pager raised {res.get('error')}", case))
         return
@@ -893,7 +907,7 @@ def eval_drive(ctx, D, info, lib_i, req_b64, call, res, checks, pending):
         if calls:
             opts = json.loads(calls[0][2])
             want_md = [list(x) for x in call["md"]]
-            if any(x not in opts["metadata"] for x in want_md) or opts["timeout"] != call["timeout"]:
+            if any(x not in opts["metadata"] for x in want_md) or opts["timeout"] != call["timeout"]:      # unset: the configured default
                 pending.append((None, f"{label}: first call options at the server {opts} do not carry metadata {want_md} / timeout {call['timeout']}", case))
             first_expected = (first_expected[0], first_expected[1], calls[0][2])
     elem = elem_fqn_of(item)
@@ -969,22 +983,60 @@ def eval_drive(ctx, D, info, lib_i, req_b64, call, res, checks, pending):
 
 
 def retry_scenario(r, D, info, m, kinds):
-    """The retry option must reach the follow-up calls: page 2 first fails with UNAVAILABLE, then succeeds."""
+    """The retry option of the call must govern the follow-up fetches exactly as it governed the first one.  Every library has a
+    configured default retry on UNAVAILABLE (retry_config), so three values are observably different on a failing page 2:
+    'explicit': the caller's Retry retries ABORTED (gRPC) / 409 (REST), which the default does not  -> page 2 is retried, 3 calls;
+    'none':     the caller passes retry=None (switch retrying off)  -> the UNAVAILABLE of page 2 must SURFACE, 2 calls;
+    'default':  nothing passed  -> the configured default retries UNAVAILABLE, 3 calls (control: the default is really active)."""
     item = next(f for f in m["resp"] if f["repeated"])
     rq = D.new(m["req_fqn"].lstrip("."))
     rq.parent = "projects/p1"
     p1, p2 = fill_page(r, D, m, 2, "t1", 1), fill_page(r, D, m, 1, "", 2)
     out = []
     for kind in kinds:
-        if kind == "rest":
-            continue
-        spec = {"service_module": info["module"], "client": info["service"] + ("AsyncClient" if kind == "grpc_asyncio" else "Client"),
-                "transport": kind, "method": m["snake"], "request": {"cls": f"{info['pypkg']}.types:{short(m['req_fqn'])}", "b64": dyn.Dyn.b64(rq)},
-                "call_kwargs": {"retry": {"codes": ["ServiceUnavailable"]}, "timeout": 40.0}, "mode": "items", "item_field": item["name"],
-                "is_map": bool(item["map"]), "attr_names": ["next_page_token"],
-                "grpc_script": {m["path"]: [{"messages": [dyn.Dyn.b64(p1)]}, {"code": "UNAVAILABLE"}, {"messages": [dyn.Dyn.b64(p2)]}]}}
-        out.append({"spec": spec, "retry": True, "kind": kind, "m": m, "item": item, "expected": items_of_dynamic(p1, item) + items_of_dynamic(p2, item)})
+        for variant in ("explicit", "none", "default"):
+            ck = {"timeout": 40.0}
+            if variant == "explicit":
+                ck["retry"] = {"codes": ["Conflict" if kind == "rest" else "Aborted"]}
+            elif variant == "none":
+                ck["retry"] = "none"
+            spec = {"service_module": info["module"], "client": info["service"] + ("AsyncClient" if kind == "grpc_asyncio" else "Client"),
+                    "transport": kind, "method": m["snake"], "request": {"cls": f"{info['pypkg']}.types:{short(m['req_fqn'])}", "b64": dyn.Dyn.b64(rq)},
+                    "call_kwargs": ck, "mode": "items", "item_field": item["name"], "is_map": bool(item["map"]), "attr_names": ["next_page_token"]}
+            if kind == "rest":
+                status = 409 if variant == "explicit" else 503
+                err = {"error": {"code": status, "message": "scripted", "status": "ABORTED" if status == 409 else "UNAVAILABLE"}}
+                spec["http_script"] = [{"status": 200, "body": json_format.MessageToJson(p1)}, {"status": status, "body": json.dumps(err)},
+                                       {"status": 200, "body": json_format.MessageToJson(p2)}]
+            else:
+                code = "ABORTED" if variant == "explicit" else "UNAVAILABLE"
+                spec["grpc_script"] = {m["path"]: [{"messages": [dyn.Dyn.b64(p1)]}, {"code": code}, {"messages": [dyn.Dyn.b64(p2)]}]}
+            out.append({"spec": spec, "retry": variant, "kind": kind, "m": m, "item": item,
+                        "expected": items_of_dynamic(p1, item) + items_of_dynamic(p2, item)})
     return out
+
+
+def eval_retry(ctx, D, info, i, b64, c, res, pending):
+    m, item, variant, kind = c["m"], c["item"], c["retry"], c["kind"]
+    case = {"kind": "drive-retry", "request_b64": b64, "rpc": m["name"], "pypkg": info["pypkg"], "spec": c["spec"], "variant": variant,
+            "info": {k: info[k] for k in ("package", "pypkg", "service", "module", "transports")}}
+    ctx.case({"lib": i, "rpc": m["name"], "kind": kind, "retry": variant}, feature=[f"retry-{variant}-on-follow-up-{kind}"])
+    ncalls = len(res["http_calls"] if kind == "rest" else res["grpc_calls"])
+    label = f"lib#{i} {m['name']} {kind} retry={variant} (2 pages, page 2 fails once with {'ABORTED/409' if variant == 'explicit' else 'UNAVAILABLE'})"
+    if variant == "none":
+        err = res.get("error") or {}
+        if res.get("ok") or "ServiceUnavailable" not in err.get("mro", []) or ncalls != 2:
+            pending.append((None, f"{label}: the caller passed retry=None, so the failure of the follow-up fetch must surface after 2 calls; instead "
+                                  f"{'iteration succeeded' if res.get('ok') else 'it raised ' + str(err.get('exception'))} and the server saw {ncalls} calls "
+                                  f"(the follow-up fetch did not use the caller's retry option)", case))
+        return
+    if not res.get("ok"):
+        pending.append((None, f"{label}: the retry option in force for the first call did not cover the follow-up page request: {res.get('error')}", case))
+        return
+    got = [decode_enc(D, e, item, elem_fqn_of(item)) for e in res["result"]["items"]]
+    got = sorted(got[:2]) + got[2:] if item["map"] else got
+    if got != c["expected"] or ncalls != 3:
+        pending.append((None, f"{label}: items={got} calls={ncalls}, expected {c['expected']} after 3 calls", case))
 
 
 def sequence_scenarios(r, D, info, m, kinds):
@@ -1127,6 +1179,7 @@ def run_libraries(ctx, n, seed_tag="C07-lib", histories=2):
             ctx.features["lib-invalid-candidate"] += 1
             ctx.notes["lib_invalid"] = str(e)[:300]
             continue
+        req = gen.with_params(req, [req.parameter], gen.case_dir(f"c07cfg{re.sub(chr(87), '', seed_tag)}{i}"), retry=retry_config(info))
         jobs.append((i, req, info))
     results = gen.pmap(lambda j: gen.run_generator(j[1]), jobs)
     cls = gen.pmap(lambda j: gen.impl("paging", [{"request_b64": apigen.req_b64(j[1])}])[0], jobs)
@@ -1160,16 +1213,7 @@ def run_libraries(ctx, n, seed_tag="C07-lib", histories=2):
         by_hist = {}
         for c, res in zip(calls, out):
             if c.get("retry"):
-                m, item = c["m"], c["item"]
-                case = {"kind": "drive-retry", "request_b64": b64, "rpc": m["name"], "pypkg": info["pypkg"], "spec": c["spec"]}
-                ctx.case({"lib": i, "rpc": m["name"], "kind": c["kind"], "retry": True}, feature=["retry-option-on-follow-up"])
-                if not res.get("ok"):
-                    pending.append((None, f"lib#{i} {m['name']} {c['kind']}: caller's retry option did not cover the follow-up page request: {res.get('error')}", case))
-                else:
-                    got = [decode_enc(D, e, item, elem_fqn_of(item)) for e in res["result"]["items"]]
-                    got = sorted(got[:2]) + got[2:] if item["map"] else got
-                    if got != c["expected"] or len(res["grpc_calls"]) != 3:
-                        pending.append((None, f"lib#{i} {m['name']} {c['kind']}: with a retried follow-up request items={got} calls={len(res['grpc_calls'])}", case))
+                eval_retry(ctx, D, info, i, b64, c, res, pending)
                 continue
             if c.get("sequence"):
                 eval_sequence(ctx, D, info, i, b64, c, res, checks, pending)
@@ -1207,6 +1251,7 @@ def witness_map_import(ctx):
     add_fields(rs, resp_shape, main)
     main.service("Library", host="library.example.com").rpc("ListBooks", rq.fqn, rs.fqn, http=("get", "/v1/{parent=projects/*}/books"))
     req = apigen.request([second, main], parameter="transport=grpc")
+    req = gen.with_params(req, ["transport=grpc"], gen.case_dir("c07mapimportcfg"), retry=retry_config({"package": pkg, "service": "Library"}))
     res, err = gen.run_generator(req)
     if res is None:
         ctx.oblige("witness map-import: generation succeeds", False, err[-400:], "T1")
@@ -1267,6 +1312,9 @@ def replay(ctx, rep):
             print("replay: the implementation now agrees with the property's rule on this shape")
     elif c.get("kind") in ("drive", "drive-retry", "drive-sequence"):
         req = apigen.req_from_b64(c["request_b64"])
+        if c.get("info"):        # the option file named in the recorded parameter is gone: write the service config again
+            keep = [x for x in req.parameter.split(",") if x and not x.startswith("retry-config=")]
+            req = gen.with_params(req, keep, gen.case_dir("c07replaycfg"), retry=retry_config(c["info"]))
         res, err = gen.run_generator(req)
         if res is None:
             ctx.oblige("replay: generation succeeds", False, err[-600:])
@@ -1279,8 +1327,14 @@ def replay(ctx, rep):
         print("replay: what the caller saw:", json.dumps(out.get("result") or out.get("error"))[:1500])
         print("replay: calls at the server:", json.dumps(out.get("grpc_calls") or out.get("http_calls"))[:1500])
         if c["kind"] == "drive-retry":
-            if not out.get("ok"):
-                ctx.violation(rep.get("what", "retry option lost"), c)
+            ncalls = len(out.get("http_calls") or out.get("grpc_calls") or [])
+            v = c.get("variant", "explicit")
+            bad = (v == "none" and (out.get("ok") or ncalls != 2)) or (v != "none" and (not out.get("ok") or ncalls != 3))
+            print(f"replay: retry variant {v}: ok={out.get('ok')} error={(out.get('error') or {}).get('exception')} server calls={ncalls}")
+            if bad:
+                ctx.violation(rep.get("what", "the retry option of the call did not govern the follow-up fetch"), c, rep.get("signature"))
+            else:
+                print("replay: the oracle no longer fails on this case")
             return
         print("replay: scripted history:", json.dumps(c["call"].get("hist") or [c["call"].get("hist1"), c["call"].get("hist2")])[:1500])
         checks, pending = [], []
